@@ -226,6 +226,8 @@ def handmade():
 def run(ctx):
     run_delays(ctx)
     c13_timers.run(ctx)
+    from drivers import c13_suite
+    c13_suite.suite_traces(ctx)
     ctx.assumptions += ['virtual time (TimeTravelLoop): timers fire at their exact due time; real-loop lateness is '
                         'modelled only for PeriodicTask via a late-running loop double',
                         'trace spec binds call arguments, callback arguments, fire times and check() for every name']
@@ -233,6 +235,9 @@ def run(ctx):
 
 def replay(ctx, data):
     d = data['replay']
+    if d.get('kind') == 'suite':
+        from drivers import c13_suite
+        return c13_suite.suite_traces(ctx, modules=[d['src'].split('::')[0].split('/')[-1][:-3]])
     if d.get('kind') == 'delays':
         tr = exec_delay_schedule(tuple(d['job']))
         wd = tlc.prepare(ctx.scratch, 'Delays', 'delays')
